@@ -89,6 +89,28 @@ func vividGoroutines() int {
 	return cnt
 }
 
+// leftGoroutines names the top vivid / go-quartz frame of every goroutine still alive.
+func leftGoroutines() string {
+	buf := make([]byte, 1<<20)
+	n := runtime.Stack(buf, true)
+	var out []string
+	for _, g := range strings.Split(string(buf[:n]), "\n\n") {
+		if (strings.Contains(g, "github.com/kercylan98/vivid/") || strings.Contains(g, "go-quartz")) && !strings.Contains(g, "verifharness") {
+			for _, l := range strings.Split(g, "\n") {
+				if strings.Contains(l, "github.com/kercylan98/vivid/") || strings.Contains(l, "go-quartz") {
+					l = strings.TrimSpace(l)
+					if i := strings.LastIndex(l, "("); i > 0 {
+						l = l[:i]
+					}
+					out = append(out, l[strings.LastIndex(l, "/")+1:])
+					break
+				}
+			}
+		}
+	}
+	return strings.Join(out, ", ")
+}
+
 func (e *sysfsmEngine) Exec(line string) (obs string, viol string) {
 	tk := strings.Fields(line)
 	if len(tk) == 0 {
@@ -226,6 +248,57 @@ func (e *sysfsmEngine) Exec(line string) (obs string, viol string) {
 			viol = fmt.Sprintf("TWICE-OK: %d of %d concurrent %s calls returned nil", oks, n, tk[1])
 		}
 		return "-", viol
+	case "slowstop":
+		// A Stop that runs into its timeout (an actor is still busy in OnKill), on a system of its own: Stop
+		// returns its error in time, later calls report already-stopped, and once the slow actor has let go
+		// and the tree has terminated no goroutine of the system is left — the failed Stop is still a Stop.
+		base := vividGoroutines()
+		sys := actor.NewSystem(vivid.WithActorSystemLogger(log.NewSilentLogger()))
+		if err := sys.Start(); err != nil {
+			return "-", ""
+		}
+		release, dead := make(chan struct{}), make(chan struct{})
+		sys.ActorOf(vivid.ActorFN(func(c vivid.ActorContext) {
+			switch c.Message().(type) {
+			case *vivid.OnKill:
+				<-release
+			case *vivid.OnKilled:
+				select {
+				case <-dead:
+				default:
+					close(dead)
+				}
+			}
+		}), vivid.WithActorName("slow"))
+		time.Sleep(20 * time.Millisecond)
+		r, done := bounded(func() error { return sys.Stop(60 * time.Millisecond) })
+		switch {
+		case !done:
+			viol = fmt.Sprintf("HANG: Stop(60 ms) with a busy actor did not return within %v", fsmBound)
+		case r == "ok":
+			viol = "SLOW-STOP: Stop returned nil although an actor was still running when its timeout expired"
+		}
+		r2, done2 := bounded(func() error { return sys.Stop(60 * time.Millisecond) })
+		if viol == "" && (!done2 || r2 == "ok") {
+			viol = fmt.Sprintf("SLOW-STOP: a second Stop after the timed-out one returned %q (done=%v), expected already-stopped at once", r2, done2)
+		}
+		close(release)
+		select {
+		case <-dead:
+		case <-time.After(2 * time.Second):
+		}
+		if viol == "" {
+			deadline := time.Now().Add(3 * time.Second)
+			n := vividGoroutines()
+			for n > base && time.Now().Before(deadline) {
+				time.Sleep(50 * time.Millisecond)
+				n = vividGoroutines()
+			}
+			if n > base {
+				viol = fmt.Sprintf("GOROUTINE-LEFT: %d goroutine(s) of a system whose Stop timed out are still alive 3 s after its last actor terminated (nothing can stop them any more: later Stop calls report already-stopped): %s", n-base, leftGoroutines())
+			}
+		}
+		return "-", viol
 	case "census":
 		// after Stop: no goroutine of the system keeps running or stays blocked
 		time.Sleep(150 * time.Millisecond)
@@ -302,6 +375,12 @@ func (e *sysfsmEngine) Generate(c *Ctx) {
 		c.Do("many start 8")
 		c.Do("many stop 8")
 		c.R.Hit("many")
+		c.R.Nontrivial()
+	}
+	// (2b) a Stop that times out
+	for r := 0; r < 2; r++ {
+		c.Case("slowstop")
+		c.R.Hit("slowstop")
 		c.R.Nontrivial()
 	}
 	// (3) goroutine census after a full Start/Stop cycle
